@@ -131,8 +131,42 @@ def decideMsg (cfg : Cfg) : Res Msg → Verdict
 /-- bytes wanted after the 2-byte header: the first chunk, or everything a two-chunk message can hold -/
 def wanted (h0 : Nat) : Nat := if h0 = l4winbox_MessageChunkBytesMax then l4winbox_MessageAuthBytesMax - 2 else h0
 
+/-- the wait for the second chunk: `got` starts with a full first chunk that is not a message on its own -/
+def secondChunk (cfg : Cfg) (hdr got : Bytes) (h0 : Nat) : Verdict :=
+  if got.length < l4winbox_MessageChunkBytesMax + 2 then .more
+  else if l4winbox_MessageChunkBytesMax + 2 + (got.getD l4winbox_MessageChunkBytesMax 0).toNat > wanted h0 then .no
+  else if got.length < l4winbox_MessageChunkBytesMax + 2 + (got.getD l4winbox_MessageChunkBytesMax 0).toNat then .more
+  else decideMsg cfg (fromBytes (hdr ++ got))
+
+/-- the delimiter comes so early in a full first chunk that key and parity byte had to fit into it as well -/
+def earlyDelim (p : Bytes) : Bool :=
+  match findDelim p 0 with
+  | some i => i + l4winbox_MessageAuthPublicKeyBytesTotal + 2 ≤ l4winbox_MessageChunkBytesMax
+  | none => false
+
+/-- what `Match` answers once `ReadAtLeast` has delivered `got` (at least `h0` bytes, at most `wanted h0 + 1`).
+A full first chunk that is not a message on its own has to be followed by a second one: while that one is incomplete
+the answer is "need more", not "no". -/
+def afterRead (cfg : Cfg) (hdr got : Bytes) (h0 : Nat) : Verdict :=
+  if got.length > wanted h0 then .no
+  else if h0 = l4winbox_MessageChunkBytesMax then
+    match fromBytes (hdr ++ got.take l4winbox_MessageChunkBytesMax) with
+    | .panic _ => .panic
+    | .err _ => if earlyDelim (got.take l4winbox_MessageChunkBytesMax) then .no else secondChunk cfg hdr got h0
+    | .ok _ => decideMsg cfg (fromBytes (hdr ++ got))
+  else decideMsg cfg (fromBytes (hdr ++ got))
+
 /-- `MatchWinbox.Match` -/
 def matcher (cfg : Cfg) : Prog :=
+  .readFull 2 fun hdr =>
+    let h0 := (hdr.headD 0).toNat
+    let h1 := (hdr.getD 1 0).toNat
+    if h0 < l4winbox_MessageAuthBytesMin - 2 ∨ h1 ≠ l4winbox_MessageChunkTypeAuth then .ret .no else
+    .readAtLeast (wanted h0 + 1) h0 fun got => .ret (afterRead cfg hdr got h0)
+
+/-- `MatchWinbox.Match` as it was before the repair: a fragment of a two-chunk message was answered with "no".
+Kept for the witness theorem only. -/
+def matcherOld (cfg : Cfg) : Prog :=
   .readFull 2 fun hdr =>
     let h0 := (hdr.headD 0).toNat
     let h1 := (hdr.getD 1 0).toNat
